@@ -238,6 +238,11 @@ func c06Gen(r *rand.Rand, n int, tier string) []string {
 			case len(edges) > 0: // tombstone / undelete an edge
 				e := pick(r, edges)
 				ops = append(ops, "ep:"+hxs(e.down)+":"+hxs(e.up)+":"+tomb(float64(pick(r, []int{0, 1, 1, 2, 3}))))
+				if r.Intn(4) == 0 {
+					// undone with the SAME time stamp (an undo that carries the time of what it undoes): the later write of
+					// two with equal times is the one that is stored
+					ops = append(ops, "ep:"+hxs(e.down)+":"+hxs(e.up)+":"+fmt.Sprintf("%s,-,%s,-,%d,0,-,-", hxs("tombstone"), valStr(float64(pick(r, []int{0, 1}))), clock))
+				}
 			}
 		}
 		var final string
